@@ -412,3 +412,9 @@ def replay(ctx, doc):
     f = oracle(users, inp["commands"], snaps)
     print(f)
     return bool(f)
+
+
+# the long-lived process: the same probe session after earlier sessions of the same server (props/history.py)
+from props import history as _history  # noqa: E402
+
+correspondence, search, replay = _history.attach(PID, correspondence, search, replay, pasts=['commands-before-login', 'second-login-with-a-listener', 'named-an-account-and-left'])
